@@ -1,4 +1,4 @@
-//@ unit u11_lww props C03 also C11 C02
+//@ unit u11_lww props C03 also C11 C02 C09
 // Unit U11: the last-writer-wins rule applied to a row received during synchronisation (src/database/node.rs
 // Node::filter_existing): which of two versions of a row is kept.  Convergence of replicas is a whole-history property and
 // is NOT decided; what is decided here is the per-row rule it rests on: the incoming version replaces the stored one exactly
@@ -80,7 +80,7 @@ pub open spec fn newer(a: NodeIdentifier, b: NodeIdentifier) -> bool { newer_v(a
             r is Ok ==> (newer(*new, existing) ==> final(result)@.len() == old(result)@.len() + 1 && final(result)@.last().id == new.id
                             && final(result)@.last().old_mdate == node.mdate && final(result)@.last().old_room_id == node.room_id
                             && final(result)@.last().old_verifying_key == Some(node.verifying_key)),
-            // [stored_version_date_travels_with_the_request]{C03,C11} the modification date of the STORED version goes along with the request: it is the lower bound of the references that are fetched with the row (a deleted reference stays out because its deletion re-dated the source row) and the day whose log is recomputed
+            // [stored_version_date_travels_with_the_request]{C03,C11,C09} the modification date of the STORED version goes along with the request: it is the lower bound of the references that are fetched with the row (a deleted reference stays out because its deletion re-dated the source row) and the day whose log is recomputed
             r is Ok && newer(*new, existing) ==> final(result)@.len() > 0 && final(result)@.last().old_mdate == node.mdate,
             // [stored_entity_travels_with_the_request]{C02} the entity of the stored version goes along with the request: a stored row is replaced only by a version of the same entity (unit u2b_ingest decides it on this field)
             r is Ok && newer(*new, existing) ==> final(result)@.len() > 0 && final(result)@.last().old_entity == Some(node._entity),
